@@ -10,7 +10,8 @@ Inductive errkind :=
   | EItemNotFound | EParentNotFound | EExtensionNotFound | EEmpty | EInvalidExpansion
   | EMultipleHomeSymbols | EVarNotPresent | EOther
   | EDoesNotExist | EIsNotDir | EIsNotFile | EIsNotSymlink | EDirContainsFiles | EExistsAlready
-  | ELinkLooping | EInvalidData | EChmodSym.
+  | ELinkLooping | EInvalidData
+  | EInvChmod | EInvChmodTarget | EInvChmodGroup | EInvChmodOp | EInvChmodPerms.
 Definition res (A : Type) := (A + errkind)%type.
 Definition Ok {A} (a : A) : res A := inl a.
 Definition Err {A} (e : errkind) : res A := inr e.
